@@ -2,7 +2,8 @@
 (***************************************************************************)
 (* Trace validation for C19: the call / reply events recorded around the   *)
 (* REAL entry points must be a behaviour of Robust.tla.                    *)
-(*   {"ev":"call","id":..,"ep":..,"op":..,"pos":..,"pre":<state digest>}   *)
+(*   {"ev":"call","id":..,"ep":..,"op":..,"pos":..,"pre":<state digest>,   *)
+(*    "re":<TRUE when the node delivers a refused input again>}            *)
 (*   {"ev":"reply","id":..,"verdict":"accept"|"reject","post":<digest>}    *)
 (* A call whose reply never came (panic, missed deadline) is followed by   *)
 (* another call, a reset or the end of the log: TLost fires and Totality   *)
@@ -19,12 +20,14 @@ Ev == TraceLog[l]
 IsEvent(e) == l <= Len(TraceLog) /\ Ev.ev = e /\ l' = l + 1
 
 TReset == /\ IsEvent("reset") /\ pending = NoCase
-          /\ store' = [e \in EntryPoints |-> {}] /\ calls' = 0 /\ last' = None
+          /\ store' = [e \in EntryPoints |-> {}] /\ calls' = 0 /\ last' = None /\ again' = NoCase
           /\ pre' = "-" /\ changed' = FALSE /\ cur' = "-"
           /\ UNCHANGED <<pending, lost, hist>>
 
 TCall == /\ IsEvent("call")
-         /\ Call([ep |-> Ev.ep, op |-> Ev.op, pos |-> Ev.pos])
+         /\ IF Ev.re
+            THEN Redeliver /\ again = [ep |-> Ev.ep, op |-> Ev.op, pos |-> Ev.pos]
+            ELSE Call([ep |-> Ev.ep, op |-> Ev.op, pos |-> Ev.pos])
          /\ pre' = Ev.pre /\ cur' = Ev.id /\ UNCHANGED changed
 
 TReply == /\ IsEvent("reply") /\ pending # NoCase /\ Ev.id = cur
@@ -37,7 +40,7 @@ TLost == /\ pending # NoCase
          /\ \/ l > Len(TraceLog)
             \/ l <= Len(TraceLog) /\ ~(Ev.ev = "reply" /\ Ev.id = cur)
          /\ lost' = TRUE /\ pending' = NoCase
-         /\ UNCHANGED <<store, calls, last, hist, l, pre, changed, cur>>
+         /\ UNCHANGED <<store, calls, last, again, hist, l, pre, changed, cur>>
 
 TraceNext == TReset \/ TCall \/ TReply \/ TLost
 TraceInit == Init /\ l = 1 /\ pre = "-" /\ changed = FALSE /\ cur = "-" /\ TLCSet(1, 1)
